@@ -58,6 +58,9 @@ pub enum Ret {
     Remove,
     /// callback error (generic sources) / process_events error (scripted wrapper)
     Err,
+    /// fd sources: the owner unwraps the still registered Generic (keeping the fd open) and
+    /// removes itself
+    UnwrapRemove,
     /// timers
     TDrop,
     /// timers: reschedule to this absolute virtual time (ns)
